@@ -122,7 +122,9 @@ def gen_prog(rng, n_ops, profile, mfs):
         elif r < 0.80:
             op = {'op': 'expire'}
             if rng.random() < 0.25:
-                op['now_shift'] = rng.choice((100.0, 3.0, 1e6, -2.0))      # expire(now=...): purging ahead of (or behind) the clock
+                # expire(now=...): purging ahead of (or behind) the clock.  (Shifts that cannot cancel a clock reading exactly: the
+                # library takes now=0.0 for "not given", a reading of the year 1970 that no history here is meant to produce.)
+                op['now_shift'] = rng.choice((100.7, 3.3, 1e6 + 0.7, -2.2))
             if rng.random() < 0.3:
                 op['retry'] = True      # how a call is spelled (retry flag given or not) changes nothing for a single client
         elif r < 0.82:
